@@ -411,12 +411,6 @@ impl C06 {
                 // a directory that holds nothing the command accepts (other extensions only)
                 // contributes no rules file, no document and no error
                 let mut extra = vec![];
-                if missing.is_empty() && r.chance(1, 6) {
-                    // a parameter file whose only key no rule reads: merged into every document
-                    extra.push(FileSpec { rel: "params/ok.json".into(), bytes: b"{\"zz_param_only\": {\"a\": 1}}".to_vec(), mtime_ns: 0 });
-                    argv.push("-i".into());
-                    argv.push("@/params/ok.json".into());
-                }
                 if r.chance(1, 6) {
                     extra.push(FileSpec { rel: "nothing/notes.txt".into(), bytes: b"{ not: [json".to_vec(), mtime_ns: 0 });
                     extra.push(FileSpec { rel: "nothing/sub/readme.md".into(), bytes: b"rule x {".to_vec(), mtime_ns: 0 });
@@ -610,7 +604,7 @@ impl C06 {
             None
         } else {
             let mode = d.kind.clone();
-            Some((format!("{}/{}/{}", mode, desc, class), format!("`{}` over {} exited with {} — the documented fold allows {:?}", d.argv.join(" ").replace("@/", ""), desc, class, allowed)))
+            Some((format!("{}/{}/{}", mode, desc, class), format!("`{}` over {} exited with {} — the documented fold allows {:?}{}", d.argv.join(" ").replace("@/", ""), desc, class, allowed, if hard.is_empty() { String::new() } else { format!(" (injected hard faults on: {})", hard.join(", ")) })))
         }
     }
 }
